@@ -173,13 +173,14 @@ def naturalIds : List Val → List StoreOp → List Val
 
 /-! ### pipelines of `$sort` / `$skip` / `$limit` -/
 
-def stageApply (docs : List Val) : Stage → List Val
-  | .sort spec => isort (docLt spec) docs
-  | .skip n => docs.drop n.toNat
-  | .limit n => docs.take n.toNat
+/-- `none` = MongoDB rejects the stage: `$skip` wants a non-negative count, `$limit` a positive one -/
+def stageApply (docs : List Val) : Stage → Option (List Val)
+  | .sort spec => some (isort (docLt spec) docs)
+  | .skip n => if n < 0 then none else some (docs.drop n.toNat)
+  | .limit n => if n ≤ 0 then none else some (docs.take n.toNat)
 
-def runStages : List Stage → List Val → List Val
-  | [], docs => docs
-  | st :: rest, docs => runStages rest (stageApply docs st)
+def runStages : List Stage → List Val → Option (List Val)
+  | [], docs => some docs
+  | st :: rest, docs => (stageApply docs st).bind (runStages rest)
 
 end MongoModel.Spec.Order
